@@ -23,6 +23,9 @@ steps = [
     Step(
         "ALTER TABLE object RENAME COLUMN latent_variables_for_id TO latent_samples_for_id;",
     ),
+    Step(
+        "ALTER TABLE named_instance ADD COLUMN instance_id INTEGER;",
+    ),
 ]
 
 migrator = Migrator(*steps)
